@@ -274,3 +274,12 @@ def body(stmts) -> list[ast.stmt]:
     if isinstance(stmts, (ast.FunctionDef, ast.AsyncFunctionDef)):
         stmts = stmts.body
     return [s for s in stmts if not inert(s)]
+
+
+def dict_items(node) -> dict | None:
+    """{key: value node} of a dict display with constant string keys or of a `dict(k=v, ...)` call; None otherwise"""
+    if isinstance(node, ast.Dict) and all(k is not None and const_str(k) is not None for k in node.keys):
+        return {const_str(k): v for k, v in zip(node.keys, node.values)}
+    if isinstance(node, ast.Call) and call_name(node) == "dict" and not node.args and all(k.arg for k in node.keywords):
+        return {k.arg: k.value for k in node.keywords}
+    return None
